@@ -807,6 +807,21 @@ func makeDefaultValue(typ *TypeDescriptor, val *parser.ConstValue, tree *parser.
 	}
 	switch val.Type {
 	case parser.ConstType_ConstInt:
+		if typ.typ == DOUBLE {
+			// an integer literal is a valid default for a double field, e.g. `1: double d = 1`
+			if x := val.TypedValue.Int; x != nil {
+				v := float64(*x)
+				tbuf := make([]byte, 8)
+				BinaryEncoding{}.EncodeDouble(tbuf, v)
+				jbuf := json.EncodeFloat64(make([]byte, 0, 8), v)
+				return &DefaultValue{
+					goValue:      v,
+					jsonValue:    rt.Mem2Str(jbuf),
+					thriftBinary: rt.Mem2Str(tbuf),
+				}, nil
+			}
+			return nil, nil
+		}
 		if !typ.typ.IsInt() {
 			return nil, fmt.Errorf("mismatched int default value with type %s", typ.name)
 		}
